@@ -363,7 +363,7 @@ def r7(ctx: Ctx) -> None:
             ctx.violated(f, bad_group.node, "orders of one price are summed wherever they are in the queue", "sum over all orders with order.price == price", "itertools.groupby merges only adjacent items; the sequence it is given is in heap order, not sorted by price")
             continue
         r = normalise(strip_ver(p.exit[1])) if p.exit[0] == "return" and p.exit[1] is not None else NONE
-        comp = r[2][0] if r[0] == "call" and key(r[1]) == "dict" and r[2] else None
+        comp = r[2][0] if r[0] == "call" and key(r[1]) == "dict" and r[2] else (r if r[0] == "comp" and r[1] == "dictcomp" else None)
         ok = False
         if comp is not None and comp[0] == "comp" and len(comp[3]) == 1 and comp[2][0] == "tuple" and len(comp[2][1]) == 2:
             kb = ("bound", comp[3][0][0][0]) if len(comp[3][0][0]) == 1 else None
